@@ -175,7 +175,7 @@ def run_programs(ctx, drv, programs, name):
 
 def names_cases(ctx):
     cfg = open(os.path.join(vlib.SPECS, "MCGoNames.cfg")).read()
-    emod, imod = (400, 30) if ctx.quick() else (40, 3)
+    emod, imod = (400, 30) if ctx.quick() else (12, 1)
     main = cfg.replace("EmitMod = 1", "EmitMod = %d" % emod).replace("IntMod = 1", "IntMod = %d" % imod)
     main = main.replace("EmitPick = 0", "EmitPick = %d" % (ctx.seed % (emod * imod)))
     main = main.replace("INVARIANTS AcceptedBuilds SafeAccepted", "INVARIANTS AcceptedBuilds SafeAccepted EmitCase")
